@@ -300,6 +300,10 @@ func (e *ev) lookupCol(sc []scope, ref ColRef) Val {
 		}
 	}
 	if found == nil {
+		if ref.Table == "" && ref.Col == "current_timestamp" {
+			// the wall clock of the database engine: an arbitrary instant
+			return e.nn(KTime, e.c.Fresh("sql_now", smt.BV(64)))
+		}
 		e.env.Unsupported(fmt.Sprintf("sql: unknown column %s.%s", ref.Table, ref.Col))
 	}
 	return *found
